@@ -110,6 +110,72 @@ def check(d, pid, tier="quick", seed=None):
     return res
 
 
+PROPS = ["C03", "C04", "C05", "C06", "C07", "C08", "C09", "C10", "C11"]
+
+
+def matrix(argv):
+    """every seeded change x every check (quick tier): which checks fire.  Writes seeded/matrix.json
+    and seeded/RESULTS.md.  --jobs N runs N checks at a time."""
+    import concurrent.futures
+    jobs = int(argv[argv.index("--jobs") + 1]) if "--jobs" in argv else 3
+    only = argv[argv.index("--only") + 1] if "--only" in argv else None
+    root = os.path.join(VERIF, "seeded")
+    names = sorted(n for n in os.listdir(root) if os.path.isdir(os.path.join(root, n)) and (not only or only in n))
+    os.environ["VERIF_WORKERS"] = str(max(2, 16 // jobs))
+    path = os.path.join(root, "matrix.json")
+    results = json.load(open(path)) if os.path.exists(path) else {}
+
+    def one(name, pid):
+        r = check(os.path.join(root, name), pid)
+        rep = r.pop("replay", None)
+        r["replay_scenario_bytes"] = len(json.dumps(rep["scenario"])) if rep else None
+        return name, pid, r
+
+    with concurrent.futures.ThreadPoolExecutor(max_workers=jobs) as ex:
+        futs = [ex.submit(one, n, p) for n in names for p in PROPS]
+        for f in concurrent.futures.as_completed(futs):
+            name, pid, r = f.result()
+            results.setdefault(name, {})[pid] = {"exit": r["exit"], "oracles": r["oracles"][:2], "tail": r["tail"][-1:]}
+            print(name, pid, r["exit"], (r["oracles"] or [""])[0][:90])
+            sys.stdout.flush()
+            with open(path, "w") as g:
+                json.dump(results, g, indent=1, sort_keys=True)
+    write_results_md(results)
+    return 0
+
+
+def write_results_md(results):
+    root = os.path.join(VERIF, "seeded")
+    lines = ["# Seeded breaking changes: which check catches which change", "",
+             "Generated by `tools/seeded.py matrix` (quick tier of every check against every change, in scratch worktrees).",
+             "`V` = VIOLATION (exit 1), `.` = clean (exit 0), `E` = harness error (exit 2). The column of the property the",
+             "change was written against is marked with brackets.", "",
+             "| change | " + " | ".join(PROPS) + " |", "|---|" + "---|" * len(PROPS)]
+    for name in sorted(results):
+        meta = json.load(open(os.path.join(root, name, "meta.json")))
+        row = []
+        for p in PROPS:
+            r = results[name].get(p)
+            c = "?" if r is None else {0: ".", 1: "V", 2: "E"}.get(r["exit"], str(r["exit"]))
+            row.append(f"[{c}]" if p == meta["property"] else c)
+        lines.append(f"| {name} | " + " | ".join(row) + " |")
+    lines += ["", "## First oracle reported by the target check", ""]
+    for name in sorted(results):
+        meta = json.load(open(os.path.join(root, name, "meta.json")))
+        r = results[name].get(meta["property"]) or {}
+        lines.append(f"* **{name}** ({meta['property']}): needs: {meta.get('needs_to_manifest')}  ")
+        lines.append(f"  reported: `{((r.get('oracles') or ['-'])[0])[:300]}`")
+    lines += ["", "## Alarms raised by checks other than the target", ""]
+    for name in sorted(results):
+        meta = json.load(open(os.path.join(root, name, "meta.json")))
+        for p in PROPS:
+            r = results[name].get(p)
+            if r and p != meta["property"] and r["exit"] != 0:
+                lines.append(f"* {name} -> {p} exit {r['exit']}: `{((r.get('oracles') or r.get('tail') or ['-'])[0])[:260]}`")
+    with open(os.path.join(root, "RESULTS.md"), "w") as f:
+        f.write("\n".join(lines) + "\n")
+
+
 def main(argv):
     if argv[0] == "confirm":
         print(json.dumps(confirm(argv[1]), indent=1))
@@ -117,6 +183,8 @@ def main(argv):
         r = check(argv[1], argv[2], argv[3] if len(argv) > 3 else "quick")
         r.pop("replay", None)
         print(json.dumps(r, indent=1))
+    elif argv[0] == "matrix":
+        return matrix(argv[1:])
     elif argv[0] == "all":
         root = os.path.join(VERIF, "seeded")
         rows = []
